@@ -14,6 +14,7 @@ import PgBifrost.Driver.Kafka
 import PgBifrost.Driver.Kinesis
 import PgBifrost.Driver.Marshal
 import PgBifrost.Driver.Parser
+import PgBifrost.Driver.Sys
 /-! `bfmodel`: line-protocol driver for the executable models (core Lean only, so it links).
 One request line in, one answer line out. First word selects the model. -/
 open PgBifrost
@@ -36,6 +37,7 @@ structure DriverState where
   client : Driver.Client.DState := {}
   clientmon : Driver.Client.MonState := {}
   aggregator : Driver.Aggregator.DState := {}
+  sys : Driver.Sys.DState := {}
 
 def dispatch (st : DriverState) (line : String) : DriverState × String :=
   match Util.words line with
@@ -71,6 +73,7 @@ def dispatch (st : DriverState) (line : String) : DriverState × String :=
   | "clientmon" :: args => let (s, out) := Driver.Client.monHandle st.clientmon args; ({ st with clientmon := s }, out)
   | "aggregator" :: args => let (s, out) := Driver.Aggregator.handle st.aggregator args; ({ st with aggregator := s }, out)
   | "aggspec" :: args => let (s, out) := Driver.Aggregator.specHandle st.aggregator args; ({ st with aggregator := s }, out)
+  | "sys" :: args => let (s, out) := Driver.Sys.handle st.sys args; ({ st with sys := s }, out)
   | ["ping"] => (st, "pong")
   | _ => (st, "bad-op")
 
